@@ -517,6 +517,9 @@ func (s *SSH) iosAnswer(l, output string) {
 			off = len(echo)
 		}
 		s.emit(echo[:off] + b + echo[off:] + "\r\n" + crlf(output) + s.prompt())
+	case "behind-output":
+		// the banner follows the command's output directly, in front of the prompt
+		s.emit(echo + "\r\n" + crlf(output) + b + "\r\n" + s.prompt())
 	default: // after
 		post := b
 		s.emit(echo + "\r\n" + crlf(output) + s.prompt())
